@@ -27,6 +27,9 @@ TRANSPARENT_LAST = {
     "as_mut_ptr", "cast", "to_bytes", "as_bytes", "try_into", "try_from", "unbox",
 }
 UNWRAP_LAST = {"unwrap", "expect", "unwrap_unchecked"}
+import re as _re
+_INT_TY = _re.compile(r"^[ui](8|16|32|64|128|size)$")
+_INT_FROM = _re.compile(r"^<([ui](?:8|16|32|64|128|size)) as (?:std|core)::convert::From<[ui](?:8|16|32|64|128|size)>>::from$")
 OK_VARIANTS = {"Ok", "Some", "Continue"}
 
 
@@ -259,6 +262,16 @@ class Prov:
             if arr is not None:
                 return arr
         args = tuple(self.operand(a, bi, si, depth + 1) for a in t["a"])
+        if last in ("from", "into") and len(args) == 1:
+            # `u128::from(x)` / `x.into()` between integer types is the widening cast `x as u128`
+            m_ = _INT_FROM.match(path) or _INT_FROM.match(f.get("ga") and ("<%s>" % f["ga"]) or "")
+            if m_ is None and f.get("ga"):
+                ga = [g.strip() for g in f["ga"].split(",")]
+                ints = [g for g in ga if _INT_TY.match(g)]
+                if len(ga) == 2 and len(ints) == 2:
+                    m_ = (ga[0] if last == "from" else ga[1],)
+            if m_ is not None:
+                return ("cast", args[0], m_.group(1) if hasattr(m_, "group") else m_[0])
         if last in TRANSPARENT_LAST and len(args) == 1:
             return args[0]
         # std spellings of a comparison / identities: x.is_positive() is x > 0; x.wrapping_add(0) is x
